@@ -65,6 +65,7 @@ class TlsNetwork(Network):
         super().__init__()
         self.servers = AliasServers()
         self.downgrade = downgrade      # peer answers TLS = no
+        self.hostile_netlocs = set()    # network locations AS WRITTEN by the client that do not answer TLS
         self.events: list[dict] = []    # connect attempts and client creations, in order
         self.owner: dict[int, str] = {}  # port -> 'provider' | 'consumer'
         self.creating = None            # party whose start_all is running (owner of an own http server)
@@ -81,8 +82,8 @@ class TlsNetwork(Network):
             return 'none'
         return self.contexts.get(id(ctx), 'foreign')
 
-    def answers(self, server, tls: bool) -> bool:
-        if self.downgrade:
+    def answers(self, server, tls: bool, netloc=None) -> bool:
+        if self.downgrade or netloc in self.hostile_netlocs:
             return not tls
         return (server.scheme == 'https') == tls
 
@@ -116,7 +117,7 @@ class TlsClient(LoopbackSoapClient):
             server = net.servers.get(self._netloc)
             if server is None:
                 raise ConnectionRefusedError(self._netloc)
-            if not net.answers(server, tls):
+            if not net.answers(server, tls, self._netloc):
                 if tls:
                     raise ssl.SSLError(1, '[SSL: WRONG_VERSION_NUMBER] loop-back: peer does not answer TLS')
                 raise ConnectionResetError('loop-back: plaintext connection to a TLS server')
